@@ -30,6 +30,7 @@ import (
 	"github.com/btcsuite/btcd/wire/v2"
 	"github.com/lightninglabs/neutrino"
 	"github.com/lightninglabs/neutrino/blockntfns"
+	"github.com/lightninglabs/neutrino/headerfs"
 
 	c "verifharness/internal/common"
 	"verifharness/internal/storeh"
@@ -60,11 +61,13 @@ type Op struct {
 	N       int    `json:"n,omitempty"` // writecf: number of filter hashes
 	BadPrev bool   `json:"badprev,omitempty"`
 	H       int32  `json:"h,omitempty"` // rollback height
+	WFail   int    `json:"wfail,omitempty"` // headers: the k-th BlockHeaders.WriteHeaders call of the operation fails
 	Obs     string `json:"obs,omitempty"`
 	Term    string `json:"term,omitempty"`
 	// backlog probes made while the operation was running (-prop C19)
 	Probes []ProbeRec `json:"probes,omitempty"`
 	ftDrop int        // committed blocks removed by the operation (report only)
+	wfHit  bool       // the write fault struck (report only)
 }
 
 type History struct {
@@ -119,7 +122,8 @@ type env struct {
 	ntfn     chan blockntfns.BlockNtfn
 	stackBuf []byte
 	hung     string
-	fault    *faultStore // the block header store given to the block manager
+	fault    *faultStore // -prop C19: read faults of the block header store
+	wf       *wfStore    // the block header store given to the block manager (write faults)
 	// what a restart needs to build a new block manager over the same stores
 	params   *chaincfg.Params
 	memCap   uint32
@@ -127,6 +131,9 @@ type env struct {
 	// generation: histories that contain restarts draw from their own stream
 	r3          *rand.Rand
 	restartHist bool
+	// ... and so do the checkpoint-fork, flip-flop and write-fault histories
+	r4     *rand.Rand
+	wfHist bool
 }
 
 // newBM builds a block manager over the environment's stores the way
@@ -135,16 +142,16 @@ type env struct {
 // channel consumed by the harness and the fault-injecting store wrapper.
 func (v *env) newBM() {
 	var err error
+	var inner headerfs.BlockHeaderStore = v.e.BS
 	if *propFlag == "C19" {
-		if v.fault == nil {
-			// the block manager reads block headers through a wrapper that
-			// can make one read of a backlog request fail
-			v.fault = &faultStore{BlockHeaderStore: v.e.BS}
-		}
-		v.bm, err = neutrino.VerifNewBlockManager(*v.params, v.fault, v.e.FS, v.ts, v.memCap)
-	} else {
-		v.bm, err = neutrino.VerifNewBlockManager(*v.params, v.e.BS, v.e.FS, v.ts, v.memCap)
+		// the block manager reads block headers through a wrapper that
+		// can make one read of a backlog request fail
+		v.fault = &faultStore{BlockHeaderStore: v.e.BS}
+		inner = v.fault
 	}
+	// ... and writes them through one that can make a WriteHeaders call fail
+	v.wf = &wfStore{BlockHeaderStore: inner}
+	v.bm, err = neutrino.VerifNewBlockManager(*v.params, v.wf, v.e.FS, v.ts, v.memCap)
 	if err != nil {
 		panic(err)
 	}
@@ -160,8 +167,46 @@ func (v *env) restart() {
 	v.bm = nil
 	v.ntfn = nil
 	v.peers = map[int]*neutrino.ServerPeer{}
+	// the stores are closed and opened again, as by a new process
+	v.e.Close()
+	if err := v.e.Open(); err != nil {
+		panic(err)
+	}
 	v.newBM()
 	v.restarts++
+}
+
+// wfStore wraps the block header store handed to the block manager: while
+// armed, its k-th WriteHeaders call fails and writes nothing (what the real
+// store does when a write fails half-way is C07's subject).
+type wfStore struct {
+	headerfs.BlockHeaderStore
+	mu     sync.Mutex
+	failAt int
+	calls  int
+	hit    bool
+}
+
+var errWriteInjected = fmt.Errorf("injected header store write fault")
+
+func (w *wfStore) WriteHeaders(hdrs ...headerfs.BlockHeader) error {
+	w.mu.Lock()
+	if w.failAt > 0 {
+		w.calls++
+		if w.calls == w.failAt {
+			w.hit = true
+			w.mu.Unlock()
+			return errWriteInjected
+		}
+	}
+	w.mu.Unlock()
+	return w.BlockHeaderStore.WriteHeaders(hdrs...)
+}
+
+func (w *wfStore) arm(k int) {
+	w.mu.Lock()
+	w.failAt, w.calls, w.hit = k, 0, false
+	w.mu.Unlock()
 }
 
 type clock struct{ t time.Time }
@@ -323,8 +368,18 @@ func (v *env) exec(op *Op) {
 			hs[i] = t.Nodes[id].Hdr
 			names[i] = fmt.Sprintf("H%d", id)
 		}
-		v.bm.Headers(v.peers[op.Peer], hs)
-		op.Term = fmt.Sprintf("(OHeaders %d %d %s)", op.Peer, op.Now, c.List(names))
+		if op.WFail > 0 {
+			v.wf.arm(op.WFail)
+			func() {
+				defer v.wf.arm(0)
+				v.bm.Headers(v.peers[op.Peer], hs)
+				op.wfHit = v.wf.hit
+			}()
+			op.Term = fmt.Sprintf("(OHeadersF %d %d %s %d)", op.Peer, op.Now, c.List(names), op.WFail)
+		} else {
+			v.bm.Headers(v.peers[op.Peer], hs)
+			op.Term = fmt.Sprintf("(OHeaders %d %d %s)", op.Peer, op.Now, c.List(names))
+		}
 	case "inv":
 		v.ts.t = time.Unix(op.Now, 0)
 		inv := wire.NewMsgInv()
@@ -644,8 +699,142 @@ func genOps(r, r2 *rand.Rand, t *Tree, v *env, nops int, now0 int64) []Op {
 			delete(alive, id)
 		}
 	}
+	// syncTo: peer id answers like a node until the client stores leaf
+	// (a message is cut at a checkpoint, so this may take several)
+	syncTo := func(id int, leaf *Node, rr *rand.Rand) {
+		full := t.path(t.Nodes[0], leaf)
+		for i := 0; i < 14; i++ {
+			fork := t.Nodes[0]
+			for _, n := range full {
+				hh := n.Hash
+				if _, err := v.e.BS.HeightFromHash(&hh); err != nil {
+					break
+				}
+				fork = n
+			}
+			rest := t.path(fork, leaf)
+			if len(rest) == 0 {
+				return
+			}
+			k := 3 + rr.Intn(8)
+			if k > len(rest) {
+				k = len(rest)
+			}
+			emit(Op{Kind: "headers", Peer: id, Now: nowOK(), Nodes: nodeIDs(rest[:k])})
+		}
+	}
+	// handOver: the next branch is revealed by another peer: the old one
+	// leaves, or the client restarts, or the new one just joins
+	handOver := func(old, id int, leaf *Node, rr *rand.Rand) {
+		switch rr.Intn(4) {
+		case 0:
+			doRestart()
+		case 1:
+			// (stays; the new peer is listened to only if the client is current)
+		default:
+			if alive[old] {
+				emit(Op{Kind: "donepeer", Peer: old})
+				delete(alive, old)
+			}
+		}
+		addPeerAt(id, leaf)
+	}
 	firstPeer := 1
 	switch {
+	case t.cpf != nil:
+		ci := t.cpf
+		mainTip := t.main[len(t.main)-1]
+		if v.r4.Intn(5) < 3 {
+			// the client follows sideA: its tip is exactly one below the
+			// checkpoint when the main chain (heavier, through the
+			// checkpoint) is revealed: adopted up to the checkpoint
+			addPeerAt(1, ci.sideA)
+			syncTo(1, ci.sideA, v.r4)
+			handOver(1, 2, mainTip, v.r4)
+			syncTo(2, mainTip, v.r4)
+			firstPeer = 3
+		} else {
+			// the client's tip is exactly ON the checkpoint when a heavier
+			// branch forking below it is revealed (refused), then the
+			// main chain goes on
+			addPeerAt(1, mainTip)
+			full := t.path(t.Nodes[0], mainTip)
+			c := int(ci.c)
+			j := v.r4.Intn(c)
+			if j > 0 {
+				emit(Op{Kind: "headers", Peer: 1, Now: nowOK(), Nodes: nodeIDs(full[:j])})
+			}
+			emit(Op{Kind: "headers", Peer: 1, Now: nowOK(), Nodes: nodeIDs(full[j : c+v.r4.Intn(3)])})
+			emit(Op{Kind: "headers", Peer: 1, Now: nowOK(), Nodes: nodeIDs(t.path(ci.forkC, ci.sideC))})
+			syncTo(1, mainTip, v.r4)
+			firstPeer = 2
+		}
+		// a branch forking exactly AT the reached checkpoint, heavier: adopted
+		pid := firstPeer - 1
+		emit(Op{Kind: "headers", Peer: pid, Now: nowOK(), Nodes: nodeIDs(t.path(t.main[ci.c-1], ci.sideB))})
+		ps[pid].leaf, ps[pid].sent = ci.sideB, ci.sideB
+	case t.flip != nil:
+		fi := t.flip
+		addPeerAt(1, fi.aExt)
+		syncTo(1, fi.aTip, v.r4)
+		for i := v.r4.Intn(3); i > 0; i-- {
+			if !cfBatch(2+v.r4.Intn(4), false, nil) {
+				break
+			}
+		}
+		// the peer sends the top of A again (redundant headers are looked up
+		// by hash in the store)
+		dup := t.path(fi.fork, fi.aTip)
+		if v.r4.Intn(2) == 0 {
+			emit(Op{Kind: "headers", Peer: 1, Now: nowOK(), Nodes: nodeIDs(dup[v.r4.Intn(len(dup)):])})
+		}
+		emit(Op{Kind: "headers", Peer: 1, Now: nowOK(), Nodes: nodeIDs(dup)})
+		pid := 1
+		if v.r4.Intn(2) == 0 {
+			// another peer reveals B (the store keeps running: no restart)
+			if v.r4.Intn(2) == 0 {
+				emit(Op{Kind: "donepeer", Peer: 1})
+				delete(alive, 1)
+			}
+			addPeerAt(2, fi.aExt)
+			pid = 2
+		}
+		firstPeer = pid + 1
+		// B: one header longer
+		emit(Op{Kind: "headers", Peer: pid, Now: nowOK(), Nodes: nodeIDs(t.path(fi.fork, fi.bTip))})
+		if v.r4.Intn(2) == 0 {
+			cfBatch(1+v.r4.Intn(3), false, nil)
+		}
+		// A comes back, extended: heavier again
+		back := t.path(fi.fork, fi.aExt)
+		if v.r4.Intn(3) == 0 {
+			// first only the part the client had before (lighter now: refused)
+			emit(Op{Kind: "headers", Peer: pid, Now: nowOK(), Nodes: nodeIDs(t.path(fi.fork, fi.aTip))})
+		}
+		emit(Op{Kind: "headers", Peer: pid, Now: nowOK(), Nodes: nodeIDs(back)})
+		ps[pid].leaf, ps[pid].sent = fi.aExt, fi.aExt
+		cfBatch(2+v.r4.Intn(3), false, nil)
+	case t.wfc != nil:
+		wi := t.wfc
+		mainTip := t.main[len(t.main)-1]
+		addPeerAt(1, mainTip)
+		syncTo(1, wi.t0, v.r4)
+		// the batch that reaches the checkpoint: its write fails
+		upto := int(wi.c) + v.r4.Intn(3)
+		if upto > len(t.main) {
+			upto = len(t.main)
+		}
+		emit(Op{Kind: "headers", Peer: 1, Now: nowOK(), Nodes: nodeIDs(t.path(wi.t0, t.main[upto-1])), WFail: 1})
+		// another branch that connects to the stored tip and has a
+		// different header at the checkpoint height
+		pid := 1
+		if v.r4.Intn(2) == 0 {
+			addPeerAt(2, wi.side)
+			pid = 2
+		}
+		firstPeer = 3
+		emit(Op{Kind: "headers", Peer: pid, Now: nowOK(), Nodes: nodeIDs(t.path(wi.t0, wi.side))})
+		syncTo(1, mainTip, v.r4)
 	case t.restart != nil:
 		// sync the main chain, commit some filter headers, RESTART, then one
 		// peer (the sync peer after the restart) reveals three branches that
@@ -893,7 +1082,16 @@ func genOps(r, r2 *rand.Rand, t *Tree, v *env, nops int, now0 int64) []Op {
 			if len(ns) == 0 {
 				continue
 			}
-			emit(Op{Kind: "headers", Peer: id, Now: nowOf(), Nodes: ns})
+			wfail := 0
+			if v.wfHist {
+				switch v.r4.Intn(10) {
+				case 0, 1:
+					wfail = 1
+				case 2:
+					wfail = 2
+				}
+			}
+			emit(Op{Kind: "headers", Peer: id, Now: nowOf(), Nodes: ns, WFail: wfail})
 		case x < 70:
 			n := -1
 			if r.Intn(5) != 0 {
@@ -946,7 +1144,8 @@ func runHistory(id int, seed int64, nops int, base string, replay *History) (h H
 	r := c.Rng(seed, id)
 	r2 := c.Rng(seed, id+500009)
 	r3 := c.Rng(seed, id+700001)
-	restartHist := false
+	r4 := c.Rng(seed, id+900007)
+	restartHist, wfHist := false, false
 	now0 := chaincfg.SimNetParams.GenesisBlock.Header.Timestamp.Unix() + 3600
 	var ps ParamSpec
 	var t *Tree
@@ -974,7 +1173,18 @@ func runHistory(id int, seed int64, nops int, base string, replay *History) (h H
 		// restart scenario, another 18% restarts injected into the history
 		rmode := r3.Intn(100)
 		restartHist = rmode < 30
+		// ... and the checkpoint-fork (10%), flip-flop (10%) and
+		// write-fault-at-a-checkpoint (8%) scenarios (r4); in another 15%
+		// random header-store write faults strike headers messages
+		smode := r4.Intn(100)
+		wfHist = smode >= 28 && smode < 43
 		switch mode := r2.Intn(100); {
+		case smode < 10:
+			t = genCpForkTree(r4, &ps, now0)
+		case smode < 20:
+			t = genFlipTree(r4, &ps, now0)
+		case smode < 28:
+			t = genWfcpTree(r4, &ps, now0)
 		case rmode < 12:
 			t = genRestartTree(r3, &ps, now0)
 		case mode < 15:
@@ -1002,6 +1212,7 @@ func runHistory(id int, seed int64, nops int, base string, replay *History) (h H
 	v.filterTok(*gf)
 	v.params, v.memCap = params, ps.MemCap
 	v.r3, v.restartHist = r3, restartHist
+	v.r4, v.wfHist = r4, wfHist
 	v.newBM()
 	h = History{ID: id, Seed: seed, Params: ps}
 	if replay != nil {
@@ -1190,6 +1401,12 @@ func main() {
 		reorg, cf := false, false
 		for _, op := range h.Ops {
 			rep.Histogram["op:"+op.Kind]++
+			if op.WFail > 0 {
+				rep.Histogram["headers_with_write_fault_armed"]++
+				if op.wfHit {
+					rep.Histogram["headers_with_write_fault_struck"]++
+				}
+			}
 			sig += op.Kind[:1]
 			if strings.Contains(op.Obs, "EDisc") {
 				reorg = true
@@ -1243,6 +1460,15 @@ func main() {
 		if envs[i].restarts > 0 {
 			rep.Histogram["histories_with_restart"]++
 		}
+		if envs[i].tree.cpf != nil {
+			rep.Histogram["histories_checkpoint_fork_scenario"]++
+		}
+		if envs[i].tree.flip != nil {
+			rep.Histogram["histories_flip_flop_scenario"]++
+		}
+		if envs[i].tree.wfc != nil {
+			rep.Histogram["histories_write_fault_at_checkpoint_scenario"]++
+		}
 		rep.Histogram["tree_nodes"] += len(envs[i].tree.Nodes)
 		rep.Histogram["checkpoints"] += len(h.Params.Checkpoints)
 		if reorg && cf {
@@ -1251,7 +1477,7 @@ func main() {
 	}
 	rep.Evaluations = n
 	rep.DistinctNontrivial = len(distinct)
-	rep.Rule = "histories on the real blockManager handlers over real header stores: a random block tree (main chain 8-30, up to 4 forks incl. work ties and longer branches, single-rule corruptions: pow, bits, time-old, time-new, version) under random parameters (retarget interval 3-8, no-retarget / min-difficulty / BIP94 flags, 0-3 checkpoints, in-memory window 2..10000) revealed by 1-4 peers in chunks, duplicates, overlaps, unconnected batches, with inv, peer arrivals/departures, filter-header batches; scenario histories from a separate PRNG stream: (15%) two checkpoints closer together than one headers message with a valid branch leaving the main chain right after the first one, ONE message from the sync peer through both checkpoint heights while the tip is below the first; (-prop C19, 45%) main chain synced, filter headers committed in batches of >= 3 up to the tip, then a longer valid branch forking >= 2 blocks below the tip, then batches on the new branch; histories with restarts from a third PRNG stream (30%): a restart builds a NEW blockManager (newBlockManager through the verif hook) over the SAME stores, re-installs the notification plumbing and forgets all peers, which have to connect again; (12%) scripted: main chain synced under no-retargeting, filter headers committed, restart, then the new sync peer reveals an equal-work and a lighter branch forking >= 2 blocks below the stored tip (below the whole in-memory window: refused) and a heavier one (adopted); (18%) a restart right before a peer reveals a fork below the stored tip, or at a random point; with -prop C19 every operation runs against an unbuffered notification channel and NotificationsSinceHeight is probed while the handler is blocked on event k and after it returned (histogram backlog_probes*), also with the n-th FetchHeaderByHeight of the request made to fail through a wrapper of the block header store (backlog_requests_with_read_fault); non-trivial = the history contains a rollback/reorganisation (disconnect events) and committed filter headers (connect events); distinct = distinct op-kind signature"
+	rep.Rule = "histories on the real blockManager handlers over real header stores: a random block tree (main chain 8-30, up to 4 forks incl. work ties and longer branches, single-rule corruptions: pow, bits, time-old, time-new, version) under random parameters (retarget interval 3-8, no-retarget / min-difficulty / BIP94 flags, 0-3 checkpoints, in-memory window 2..10000) revealed by 1-4 peers in chunks, duplicates, overlaps, unconnected batches, with inv, peer arrivals/departures, filter-header batches; scenario histories from a separate PRNG stream: (15%) two checkpoints closer together than one headers message with a valid branch leaving the main chain right after the first one, ONE message from the sync peer through both checkpoint heights while the tip is below the first; (-prop C19, 45%) main chain synced, filter headers committed in batches of >= 3 up to the tip, then a longer valid branch forking >= 2 blocks below the tip, then batches on the new branch; histories with restarts from a third PRNG stream (30%): a restart builds a NEW blockManager (newBlockManager through the verif hook) over the SAME stores, re-installs the notification plumbing and forgets all peers, which have to connect again; (12%) scripted: main chain synced under no-retargeting, filter headers committed, restart, then the new sync peer reveals an equal-work and a lighter branch forking >= 2 blocks below the stored tip (below the whole in-memory window: refused) and a heavier one (adopted); (18%) a restart right before a peer reveals a fork below the stored tip, or at a random point; scenario histories from a fourth PRNG stream: (10%) checkpoint fork under no-retargeting: the client follows a side branch whose tip is exactly ONE BELOW a checkpoint when the heavier main chain through the checkpoint is revealed (handed over by peer departure, restart, or a second peer), or its tip is exactly ON the checkpoint when a heavier branch forking below it is revealed (refused), then a heavier branch forking exactly AT the reached checkpoint (adopted); (10%) flip-flop on one running store: A synced, top of A sent again, heavier B adopted, then A extended by 2-3 headers comes back (adopted), from the same or another peer; (8%) the batch reaching a checkpoint is lost to a failing BlockHeaders.WriteHeaders, then a branch connecting to the stored tip with a different header at the checkpoint height; (15%) the k-th WriteHeaders call (k = 1, 2) of random headers messages fails (a wrapper around the block header store; operation OHeadersF); a restart also closes and re-opens both header stores; with -prop C19 every operation runs against an unbuffered notification channel and NotificationsSinceHeight is probed while the handler is blocked on event k and after it returned (histogram backlog_probes*), also with the n-th FetchHeaderByHeight of the request made to fail through a wrapper of the block header store (backlog_requests_with_read_fault); non-trivial = the history contains a rollback/reorganisation (disconnect events) and committed filter headers (connect events); distinct = distinct op-kind signature"
 	for i := 0; i < n && i < 2; i++ {
 		rep.Samples = append(rep.Samples, hs[i])
 	}
